@@ -186,24 +186,155 @@ pub const TEMPLATES: [(&str, &str, &str); 23] = [
      "{ format!(\"{:x}|{:b}|{:E}\", $m::S(U(255)), $m::S(U(5)), $m::S(U(1200))) }"),
 ];
 
+
+// ------------------------------------------------------------------------------------------------
+// additions: further shadow sets, container-level `#[debug("..")]` templates, nightly Error/backtrace templates
+
+/// Candidate defect (reported, not repaired yet): `derive(Error)` calls `<field>.as_dyn_error()` with method-call
+/// syntax after a local `use derive_more::__private::AsDynError` (impl/src/error.rs `render_some`); a trait of the
+/// caller's scope that offers a method of that name for every type makes the call ambiguous (E0034).
+/// While `true`, the shadow set with such a trait is not produced.
+const AVOID_METHOD_SYNTAX_CAPTURE_AS_DYN_ERROR: bool = true;
+/// Candidate defect / known limit of call-site hygiene (reported): expansions bind plain identifiers (`val`, `value`,
+/// `src`, `source`, `__derive_more_f`, ..) that resolve to a constant of the same name in the caller's scope
+/// (E0530 / E0308). While `true`, the shadow set with such constants is not produced.
+const AVOID_BINDING_NAMES_SHADOWED_BY_CONSTS: bool = true;
+
+/// A trait in scope that offers, for every type, methods named like the ones expansions call with method-call syntax
+/// on values whose inherent method must win (`str::to_lowercase`, `String::as_str`, `Formatter::write_str`).
+const SHADOW_METHODS: (&str, &str) = (
+    "method_traits",
+    "pub trait Hijack { fn to_lowercase(&self) -> u8 { 0 } fn as_str(&self) -> u8 { 0 } fn write_str(&self, _: &str) -> u8 { 0 } fn default() -> u8 { 0 } } impl<T: ?::core::marker::Sized> Hijack for T {}",
+);
+const SHADOW_METHOD_AS_DYN_ERROR: (&str, &str) = (
+    "method_trait_as_dyn_error",
+    "pub trait Hijack2 { fn as_dyn_error(&self) -> u8 { 0 } } impl<T: ?::core::marker::Sized> Hijack2 for T {}",
+);
+const SHADOW_BINDING_CONSTS: (&str, &str) = (
+    "binding_consts",
+    "pub const val: u8 = 0; pub const value: u8 = 0; pub const src: u8 = 0; pub const source: u8 = 0; pub const rhs: u8 = 0; pub const idx: u8 = 0; pub const iter: u8 = 0; pub const request: u8 = 0; pub const backtrace: u8 = 0; pub const field_0: u8 = 0; pub const __0: u8 = 0; pub const _0: u8 = 0; pub const conv: u8 = 0; pub const __derive_more_f: u8 = 0;",
+);
+
+/// all shadow sets in use
+pub fn shadows() -> Vec<(&'static str, &'static str)> {
+    let mut v: Vec<(&str, &str)> = SHADOWS.to_vec();
+    v.push(SHADOW_METHODS);
+    if !AVOID_METHOD_SYNTAX_CAPTURE_AS_DYN_ERROR {
+        v.push(SHADOW_METHOD_AS_DYN_ERROR);
+    }
+    if !AVOID_BINDING_NAMES_SHADOWED_BY_CONSTS {
+        v.push(SHADOW_BINDING_CONSTS);
+    }
+    v
+}
+
+/// further behaviour templates (kept apart from `TEMPLATES`, which C20 reuses)
+pub const TEMPLATES_GAP: [(&str, &str, &str); 3] = [
+    // debug.md: `#[debug("...", args...)]` "for the whole struct or enum variant"
+    ("Debug_container_format", "#[derive(derive_more::Debug)] #[debug(\"S<{a}|{}>\", b.0)] pub struct S { pub a: U, pub b: U } #[derive(derive_more::Debug)] pub enum E { #[debug(\"alpha {_0:?}/{}\", _1.0)] Alpha(U, U), #[debug(\"{_0:x}\")] Beta(U), #[debug(\"gamma\")] Gamma, Delta { d: U } }",
+     "{ format!(\"{:?}|{:?}|{:?}|{:?}|{:?}|{:#?}\", $m::S { a: U(1), b: U(2) }, $m::E::Alpha(U(3), U(4)), $m::E::Beta(U(255)), $m::E::Gamma, $m::E::Delta { d: U(5) }, $m::E::Delta { d: U(6) }) }"),
+    ("Debug_container_format_generic", "#[derive(derive_more::Debug)] #[debug(\"G<{t:?}>\")] pub struct G<T> { pub t: T } #[derive(derive_more::Debug)] #[debug(\"{_0:?}\")] pub struct H<T>(pub T); #[derive(derive_more::Debug)] #[debug(\"unit\")] pub struct N;",
+     "{ format!(\"{:?}|{:?}|{:5?}|{:?}\", $m::G { t: U(1) }, $m::H(U(2)), $m::H(7u8), $m::N) }"),
+    ("Display_shared_non_wrapping", "#[derive(derive_more::Display)] #[display(\"same for all\")] pub enum E { Alpha, Beta(U) } #[derive(derive_more::Display)] #[display(\"{_variant}!\")] pub enum F { #[display(\"a{}\", _0)] Alpha(U), Beta { b: U }, Gamma }",
+     "{ format!(\"{}|{}|{}|{}|{}\", $m::E::Alpha, $m::E::Beta(U(1)), $m::F::Alpha(U(2)), $m::F::Beta { b: U(3) }, $m::F::Gamma) }"),
+];
+
+/// templates that need `#![feature(error_generic_member_access)]`: the `provide()` half of `derive(Error)`
+/// (error.md: fields called `backtrace` / of a type called `Backtrace` / marked `#[error(backtrace)]`)
+pub const TEMPLATES_NIGHTLY: [(&str, &str, &str); 6] = [
+    ("Error_backtrace_struct", "#[derive(Debug, derive_more::Display, derive_more::Error)] #[display(\"outer\")] pub struct S { pub source: U, pub backtrace: ::std::backtrace::Backtrace }",
+     "{ let e = $m::S { source: U(5), backtrace: ::std::backtrace::Backtrace::force_capture() }; format!(\"{:?} {}\", ::std::error::Error::source(&e).map(|s| s.to_string()), ::std::error::request_ref::<::std::backtrace::Backtrace>(&e).is_some()) }"),
+    ("Error_backtrace_tuple", "#[derive(Debug, derive_more::Display, derive_more::Error)] #[display(\"outer\")] pub struct S(pub U, pub ::std::backtrace::Backtrace);",
+     "{ let e = $m::S(U(5), ::std::backtrace::Backtrace::force_capture()); format!(\"{:?} {}\", ::std::error::Error::source(&e).map(|s| s.to_string()), ::std::error::request_ref::<::std::backtrace::Backtrace>(&e).is_some()) }"),
+    ("Error_backtrace_only", "#[derive(Debug, derive_more::Display, derive_more::Error)] #[display(\"outer\")] pub struct S { pub code: U, pub backtrace: ::std::backtrace::Backtrace } #[derive(Debug, derive_more::Display, derive_more::Error)] #[display(\"t\")] pub struct S2(#[error(not(source))] pub U, #[error(backtrace)] pub ::std::backtrace::Backtrace);",
+     "{ let e = $m::S { code: U(5), backtrace: ::std::backtrace::Backtrace::force_capture() }; let e2 = $m::S2(U(1), ::std::backtrace::Backtrace::force_capture()); format!(\"{:?} {} {:?} {}\", ::std::error::Error::source(&e).map(|s| s.to_string()), ::std::error::request_ref::<::std::backtrace::Backtrace>(&e).is_some(), ::std::error::Error::source(&e2).map(|s| s.to_string()), ::std::error::request_ref::<::std::backtrace::Backtrace>(&e2).is_some()) }"),
+    ("Error_backtrace_from_source", "#[derive(Debug, derive_more::Display, derive_more::Error)] #[display(\"inner\")] pub struct Inner { pub backtrace: ::std::backtrace::Backtrace } #[derive(Debug, derive_more::Display, derive_more::Error)] #[display(\"outer\")] pub struct S { #[error(backtrace)] pub source: Inner } #[derive(Debug, derive_more::Display, derive_more::Error)] #[display(\"plain\")] pub struct P { pub source: Inner }",
+     "{ let e = $m::S { source: $m::Inner { backtrace: ::std::backtrace::Backtrace::force_capture() } }; let p = $m::P { source: $m::Inner { backtrace: ::std::backtrace::Backtrace::force_capture() } }; format!(\"{:?} {} {}\", ::std::error::Error::source(&e).map(|s| s.to_string()), ::std::error::request_ref::<::std::backtrace::Backtrace>(&e).is_some(), ::std::error::request_ref::<::std::backtrace::Backtrace>(&p).is_some()) }"),
+    ("Error_backtrace_enum", "#[derive(Debug, derive_more::Display, derive_more::Error)] #[display(\"inner\")] pub struct Inner { pub backtrace: ::std::backtrace::Backtrace } #[derive(Debug, derive_more::Display, derive_more::Error)] pub enum E { #[display(\"a\")] Alpha { source: U, backtrace: ::std::backtrace::Backtrace }, #[display(\"b\")] Beta(#[error(backtrace)] Inner), #[display(\"c\")] Gamma { code: U, backtrace: ::std::backtrace::Backtrace }, #[display(\"d\")] Delta, #[display(\"e\")] Eps(U, ::std::backtrace::Backtrace) }",
+     "{ let bt = || ::std::backtrace::Backtrace::force_capture(); let r = |e: $m::E| format!(\"{:?}/{}\", ::std::error::Error::source(&e).map(|s| s.to_string()), ::std::error::request_ref::<::std::backtrace::Backtrace>(&e).is_some()); format!(\"{}|{}|{}|{}|{}\", r($m::E::Alpha { source: U(1), backtrace: bt() }), r($m::E::Beta($m::Inner { backtrace: bt() })), r($m::E::Gamma { code: U(2), backtrace: bt() }), r($m::E::Delta), r($m::E::Eps(U(3), bt()))) }"),
+    ("Error_backtrace_generic", "#[derive(Debug, derive_more::Display, derive_more::Error)] #[display(\"outer\")] pub struct S<T> { pub source: T, pub backtrace: ::std::backtrace::Backtrace }",
+     "{ let e = $m::S { source: U(5), backtrace: ::std::backtrace::Backtrace::force_capture() }; format!(\"{:?} {}\", ::std::error::Error::source(&e).map(|s| s.to_string()), ::std::error::request_ref::<::std::backtrace::Backtrace>(&e).is_some()) }"),
+];
+
+/// one behaviour case: `items` in a friendly and in a hostile module, the driver evaluated in both
+fn behaviour_case(sname: &str, shadow: &str, label: &str, items: &str, driver: &str, nightly: bool) -> GenCase {
+    let friendly = format!("pub mod friendly {{\n    #[allow(unused_imports)] use crate::*;\n    {items}\n}}\n");
+    // std `Debug`/`Clone`/`Copy` derives are user tokens: made absolute by `absolutize` where needed
+    let hostile = hostile_mod(shadow, &items.replace("Clone, Copy", "::core::clone::Clone, ::core::marker::Copy"), "hostile");
+    let body = format!(
+        "{friendly}{hostile}macro_rules! drive {{ ($m:ident) => {{ {driver} }} }}\npub fn run(o: &mut Out) {{\n    let f: String = drive!(friendly);\n    let h: String = drive!(hostile);\n    o.put(\"friendly\", &f);\n    o.eq(\"hostile scope behaves like the friendly scope\", &f, &h);\n}}"
+    );
+    let mut c = GenCase::new(body);
+    c.control = Some(format!("{friendly}macro_rules! drive {{ ($m:ident) => {{ {driver} }} }}\npub fn run(o: &mut Out) {{ let f: String = drive!(friendly); o.put(\"friendly\", &f); }}"));
+    c.labels = vec![format!("shadow={sname}"), "kind=behaviour".into(), format!("template={label}")];
+    if nightly {
+        c.labels.push("nightly_provide_expansion".into());
+    }
+    c.nontrivial = true;
+    c.meta = json!({"shadow": sname, "template": label, "nightly": nightly});
+    c
+}
+
+fn all_templates() -> Vec<(&'static str, &'static str, &'static str)> {
+    TEMPLATES.iter().chain(TEMPLATES_GAP.iter()).copied().collect()
+}
+
+fn build_nightly(d: &mut Dice) -> GenCase {
+    let sh = shadows();
+    let (sname, shadow) = sh[d.pick(sh.len())];
+    let (label, items, driver) = TEMPLATES_NIGHTLY[d.pick(TEMPLATES_NIGHTLY.len())];
+    behaviour_case(sname, shadow, label, items, driver, true)
+}
+
+fn fixed_nightly() -> Vec<GenCase> {
+    let mut v = vec![];
+    for (label, items, driver) in TEMPLATES_NIGHTLY.iter() {
+        for (sname, shadow) in shadows() {
+            v.push(behaviour_case(sname, shadow, label, items, driver, true));
+        }
+    }
+    // the stable templates ride along (same toolchain, same feature gate): a defect confined to the `provide()`
+    // branches then fails a minority of this shard's cases and is reported as such, not as a broken shard
+    for (label, items, driver) in all_templates() {
+        for (sname, shadow) in shadows() {
+            let mut c = behaviour_case(sname, shadow, label, items, driver, false);
+            c.labels.push("stable_template_in_nightly_shard".into());
+            c.meta["nightly"] = json!(true);
+            v.push(c);
+        }
+    }
+    v
+}
+
+pub fn prop_nightly() -> DiceProp {
+    DiceProp {
+        crate_name: "gen_c15n",
+        prelude: PRELUDE.to_string(),
+        crate_attrs: "#![feature(error_generic_member_access)]".into(),
+        nightly: true,
+        check_only: false,
+        ndice: 8,
+        quick: (48, 1),
+        thorough: (48, 1),
+        build: build_nightly,
+        fixed: fixed_nightly,
+        classify,
+        rule: "nightly shard: the `provide()` expansions of derive(Error) (backtrace fields by name / by type / by attribute, backtrace through the source, struct and every enum arm form, generic) x all shadow sets, friendly vs hostile module as in the main shard".into(),
+        assumptions: vec![],
+        floors: vec![("nightly_provide_expansion".into(), 0.15)],
+        shards: 0,
+    }
+}
+
 fn build(d: &mut Dice) -> GenCase {
-    let si = d.pick(SHADOWS.len());
-    let (sname, shadow) = SHADOWS[si];
+    let sh = shadows();
+    let si = d.pick(sh.len());
+    let (sname, shadow) = sh[si];
     if d.chance(25) {
         // (B) behaviour template
-        let (label, items, driver) = TEMPLATES[d.pick(TEMPLATES.len())];
-        let friendly = format!("pub mod friendly {{\n    #[allow(unused_imports)] use crate::*;\n    {items}\n}}\n");
-        // std `Debug`/`Clone`/`Copy` derives are user tokens: made absolute by `absolutize` where needed
-        let hostile = hostile_mod(shadow, &items.replace("Clone, Copy", "::core::clone::Clone, ::core::marker::Copy"), "hostile");
-        let body = format!(
-            "{friendly}{hostile}macro_rules! drive {{ ($m:ident) => {{ {driver} }} }}\npub fn run(o: &mut Out) {{\n    let f: String = drive!(friendly);\n    let h: String = drive!(hostile);\n    o.put(\"friendly\", &f);\n    o.eq(\"hostile scope behaves like the friendly scope\", &f, &h);\n}}"
-        );
-        let mut c = GenCase::new(body);
-        c.control = Some(format!("{friendly}macro_rules! drive {{ ($m:ident) => {{ {driver} }} }}\npub fn run(o: &mut Out) {{ let f: String = drive!(friendly); o.put(\"friendly\", &f); }}"));
-        c.labels = vec![format!("shadow={sname}"), "kind=behaviour".into(), format!("template={label}")];
-        c.nontrivial = true;
-        c.meta = json!({"shadow": sname, "template": label});
-        return c;
+        let ts = all_templates();
+        let (label, items, driver) = ts[d.pick(ts.len())];
+        return behaviour_case(sname, shadow, label, items, driver, false);
     }
     // (A) generated item from the C01 generator
     let (item, mut labels, extra) = p01::build_item_pub(d);
@@ -241,13 +372,9 @@ fn classify(_c: &GenCase, r: &CaseResult, _f: &Finding) -> Option<String> {
 fn fixed() -> Vec<GenCase> {
     // every behaviour template under every shadow set
     let mut v = vec![];
-    for (ti, _) in TEMPLATES.iter().enumerate() {
-        for (si, _) in SHADOWS.iter().enumerate() {
-            // dice that select: shadow si, behaviour branch, template ti
-            let n = SHADOWS.len();
-            let s = (((si * 65536) / n) + 65536 / (2 * n)) as u16;
-            let t = (((ti * 65536) / TEMPLATES.len()) + 65536 / (2 * TEMPLATES.len())) as u16;
-            v.push(build(&mut Dice::new(vec![s, 65535, t])));
+    for (label, items, driver) in all_templates() {
+        for (sname, shadow) in shadows() {
+            v.push(behaviour_case(sname, shadow, label, items, driver, false));
         }
     }
     v
@@ -266,18 +393,31 @@ pub fn prop() -> DiceProp {
         build,
         fixed,
         classify,
-        rule: "pairs (friendly module, `#[no_implicit_prelude]` hostile module with a shadow set) of (A) items from the C01 generator (all 50 derives x shapes x generics x documented attributes) and (B) 23 behaviour templates per derive family x 7 shadow sets (none = pure no-prelude; local types Result/Option/String/Vec/Box; local fns/consts Ok/Err/Some/None; local traits Debug/Display/From/...; local macro_rules panic/write/format_args/matches/stringify/... that turn a capture into a compile error; silently capturing macros; glob-imported enum variants named Ok/Err/Some/None); oracle: the hostile copy compiles whenever the friendly one does and the driver's observation string (formatting results, panics, error texts, sources, parses) is identical in both; non-trivial = every case (the hostile scope always lacks the prelude); distinct by program text".into(),
+        rule: "pairs (friendly module, `#[no_implicit_prelude]` hostile module with a shadow set) of (A) items from the C01 generator (all 50 derives x shapes x generics x documented attributes) and (B) 26 behaviour templates per derive family (incl. container-level `#[debug(\"..\")]` formats and non-wrapping shared Display formats) x 8 shadow sets (none = pure no-prelude; a local trait offering `to_lowercase`/`as_str`/`write_str`/`default` for every type; local types Result/Option/String/Vec/Box; local fns/consts Ok/Err/Some/None; local traits Debug/Display/From/...; local macro_rules panic/write/format_args/matches/stringify/... that turn a capture into a compile error; silently capturing macros; glob-imported enum variants named Ok/Err/Some/None); oracle: the hostile copy compiles whenever the friendly one does and the driver's observation string (formatting results, panics, error texts, sources, parses) is identical in both; non-trivial = every case (the hostile scope always lacks the prelude); distinct by program text".into(),
         assumptions: vec!["user tokens of the generated items are written with absolute paths in the hostile module (token-level rewrite), so only tokens produced by the expansion can depend on the scope".into()],
         // behaviour templates are a fixed set of 22 x 7 programs (all of them run in round 0), so their share shrinks with the tier
-        floors: vec![("kind=behaviour".into(), 0.003), ("shadow=macros".into(), 0.08), ("shadow=none".into(), 0.08), ("shadow=types".into(), 0.08), ("shadow=values".into(), 0.08), ("shadow=traits".into(), 0.08)],
+        floors: vec![("kind=behaviour".into(), 0.003), ("shadow=method_traits".into(), 0.06), ("template=Debug_container_format".into(), 0.001), ("shadow=macros".into(), 0.08), ("shadow=none".into(), 0.08), ("shadow=types".into(), 0.08), ("shadow=values".into(), 0.08), ("shadow=traits".into(), 0.08)],
         shards: 0,
     }
 }
 
 pub fn run(ctx: &Ctx) -> Report {
-    super::progprop::run(&prop(), ctx)
+    let mut rep = super::progprop::run(&prop(), ctx);
+    let nightly_ok = std::process::Command::new("rustc").arg("+nightly").arg("--version").output().map(|o| o.status.success()).unwrap_or(false);
+    if nightly_ok {
+        let r2 = super::progprop::run(&prop_nightly(), ctx);
+        rep.evidence.merge(r2.evidence);
+        rep.violations.extend(r2.violations);
+        rep.infra_errors.extend(r2.infra_errors);
+    } else {
+        rep.infra_errors.push("nightly toolchain not available: the Error/backtrace (provide) shard of C15 cannot run".into());
+    }
+    rep
 }
 
 pub fn replay(ctx: &Ctx, case: &serde_json::Value) -> Report {
+    if case["meta"]["nightly"].as_bool() == Some(true) {
+        return super::progprop::replay(&prop_nightly(), ctx, case);
+    }
     super::progprop::replay(&prop(), ctx, case)
 }
